@@ -91,7 +91,7 @@ def run(ctx):
     ctx.rule = ("accepted inputs reached (a) by mutating valid SOME/IP messages, SD payloads, SD entries and SD options (bit flips, field corruption, "
                 "option types 0x00-0xFF, protocol numbers 0-255, unknown flag bits, non-zero reserved bytes) and (b) by an independent non-canonical "
                 "SD encoder in the harness (unshared duplicates, permuted arrays, overlapping runs, unreferenced options, zero-count indexes, garbage "
-                "after config terminators) and hand-written configuration options (k=v, k=, k, k=v=w); for every accepted input the implementation's decode/encode/decode cycle is checked and each step "
+                "after config terminators) and hand-written configuration options (k=v, k=, k, k=v=w) and hand-written IP options of all kinds of a family for one address / protocol / port; for every accepted input the implementation's decode/encode/decode cycle is checked and each step "
                 "compared with the model; non-trivial = distinct accepted input")
     ctx.assumptions = ["inputs are byte strings; SD entries are decoded with the number of options of their message"]
     ctx._cases, ctx._impl, ctx._descr = [], [], []
@@ -143,5 +143,31 @@ def run(ctx):
             ebs, _ = gen.mutate(r, ebs, fields=[(0, 1), (1, 1), (2, 1), (3, 1), (12, 4)])
         st = cycle(ctx, "SD entry", ebs, lambda x: H.SOMEIPSDEntry.parse(x, nopt), lambda v: v.build(), conv.s_entry, (204, 203), extra=nopt)
         ctx.case(("entry", ebs, nopt), nontrivial=st == "accepted", kind="entry-" + st)
+    # IP options of ALL kinds of a family with ONE (address, protocol, port), written by hand (no encoder of the library is
+    # involved in making the input), one after the other in one process: what one kind leaves behind must not leak into another
+    import random
+    import struct
+    r2 = random.Random(ctx.seed * 7919 + 20)      # a stream of its own: the cases above stay what they were
+    for k in range(30 if quick else 600):
+        v6 = r2.random() < 0.4
+        addr = r2.choice(gen.V6 if v6 else gen.V4)
+        proto = r2.choice([6, 17, 17, 0, 255])
+        port = r2.choice([0, 1, 30490, 30501, 0xFFFF, r2.getrandbits(16)])
+        kinds = [0x06, 0x16, 0x26] if v6 else [0x04, 0x14, 0x24]
+        r2.shuffle(kinds)
+        raws = []
+        for ty in kinds + ([r2.choice(kinds)] if r2.random() < 0.5 else []):
+            body = bytes([0]) + addr.packed + bytes([0, proto]) + struct.pack(">H", port)
+            raws.append(struct.pack(">HB", len(body), ty) + body)
+        for ob in raws:
+            st = cycle(ctx, "SD option", ob, H.SOMEIPSDOption.parse, lambda v: v.build(), conv.s_opt, (202, 201))
+            ctx.case(("opt-kinds", k, ob), nontrivial=st == "accepted", kind="ip-option-kinds-one-address-" + st)
+        if r2.random() < 0.5:
+            # ... and all of them in the option array of one SD message, each referenced by an entry
+            eb = b"".join(bytes([1, i, 0, 1 << 4]) + struct.pack(">HHB", 0x1111, 1, 1) + (3).to_bytes(3, "big") + (7).to_bytes(4, "big") for i in range(len(raws)))
+            obs = b"".join(raws)
+            sb = bytes([0xC0, 0, 0, 0]) + struct.pack(">I", len(eb)) + eb + struct.pack(">I", len(obs)) + obs
+            st = cycle(ctx, "SD message", sb, H.SOMEIPSDHeader.parse, lambda v: v.build(), conv.s_sd, (208, 207))
+            ctx.case(("sd-kinds", k, sb), nontrivial=st == "accepted", kind="sd-ip-option-kinds-" + st)
     outs = compare(ctx, ctx._cases, ctx._impl, "decoder/encoder differs from the model", lambda i: repr(ctx._descr[i]))
     incoq_crosscheck(ctx, ctx._cases, outs, limit=100 if quick else 400)
